@@ -269,6 +269,13 @@ def blocking_under_lock(repo):
 def run(repo, rep):
     from ..pitfalls import memo_rule as _memo_rule
     _memo_rule(repo, rep, 'C20', 'C20.Z1')
+    rep.rule('C20.H8', 'data sets and command sets are encoded into a buffer that is created in the call, or held per thread and emptied '
+             'before the first write: the bytes of a message never contain what another thread or an earlier, failed encode wrote '
+             '(same analysis as C08.M7)', 1)
+    from ..pitfalls import writer_reuse_problems as _wrp
+    _sh, _st, _nw = _wrp(repo)
+    rep.check(not (_sh or _st), 'C20.H8', 'dsutils:writers', repo.module('dsutils').relpath, '%d write sites: buffers fresh, or per-thread and '
+              'emptied first' % _nw, '; '.join(_sh + _st))
     _selfcheck()
     rep.assume('NOT DECIDED by this family: behaviour under concrete thread interleavings, independence of failures')
     rep.trust('CPython: threading.local gives per-thread attributes; dict/set single operations are atomic under the GIL; '
